@@ -530,9 +530,18 @@ class _NewtonStub(object):
         from symx.engine import current
         ex = current()
         n = len(self.guess)
+        # the same system solved again on this path (a second object with identical data, a repeated call) has the same
+        # answer: recognised by the terms of F at a probe vector
+        from symx.engine import sym
+        probe = [sym('__newton_probe%d' % i) for i in range(n)]
+        key = tuple(term_of(v) for v in self.function.F(list(probe)))
+        cache = ex.notes.setdefault('newtoncache', {})
+        if key in cache:
+            return {'solution': cache[key].copy()}
         x = np.empty(n, dtype=object)
         for i in range(n):
             x[i] = ex.fresh('newton')
+        cache[key] = x
         F = self.function.F(list(x))
         for i in range(n):
             ex.assume(T.eq(term_of(F[i]), T.ZERO))
